@@ -116,6 +116,23 @@ PROPS = {
         "open_statements": ["RelevantOnly without a configured pattern is outside the property's wording; the model mirrors "
                             "the code (C19_decision_no_pattern)"],
     },
+    "C03": {
+        "engines": [{"name": "decode", "quick": 60000, "thorough": 2000000, "shards": 8}],
+        "nontrivial": lambda l, v: "=" in l.split(" => ")[1].split(" ")[0],
+        "rule": "decode: lists of 0-4 (name, value) pairs over names with reserved characters, empty names, case variants, "
+                "invalid UTF-8, '%'/'+' and values with spaces, NUL, percent text, encoded by an independent encoder (every "
+                "non-alphanumeric byte percent-encoded) or left raw/malformed ('==', missing '=', trailing '%4', '#frag', '&&'), "
+                "as query string (ProcessURI), urlencoded body (WriteRequestBody+ProcessRequestBody) and Cookie header; header "
+                "store/lookup under other spellings. Compared: ARGS_GET/ARGS/ARGS_GET_NAMES/QUERY_STRING/URLENCODED_ERROR, "
+                "ARGS_POST/REQUEST_BODY, REQUEST_COOKIES, REQUEST_HEADERS dumps (sorted). Non-trivial = at least one pair exposed.",
+        "modelled": "modelled and proved: url.ParseQuery/queryUnescape/hexDigitToByte, the fragment cut of ProcessURI, "
+                    "cookies.ParseCookies, header storage (collection model). Parameters: net/url.ParseRequestURI (rejects control "
+                    "bytes: modelled as that guard), mime/multipart, encoding/xml, gjson (multipart/JSON/XML bodies are not in this "
+                    "engine yet).",
+        "assumptions": ["url.ParseRequestURI returns RawQuery = everything after the first '?' and fails only on control bytes for these inputs"],
+        "open_statements": ["multipart, JSON and XML bodies (C03_json_flatten_partial) are not modelled yet",
+                            "arguments beyond SecArgumentsLimit are dropped with only a debug log (F-C03-1, design decision: see known_findings.json)"],
+    },
     "C09": {
         "engines": [_eng("acct", 25000, 800000), _eng("", 10000, 300000)],
         "nontrivial": _eng_nontrivial, "rule": _ENG_RULE + "Profile `acct`: more setvar (+N, -N, assign, delete, macro keys/values), chains, multiMatch.",
